@@ -20,6 +20,7 @@ theorem Preserved.of_iff {I J : World → Prop} (h : ∀ w, I w ↔ J w) (hI : P
   exec w p c hv hj := (h _).1 (hI.exec w p c hv ((h _).2 hj))
   resume w p f sig hv hj := (h _).1 (hI.resume w p f sig hv ((h _).2 hj))
   finish w p v st hj := (h _).1 (hI.finish w p v st ((h _).2 hj))
+  clear w p f hf hb hj := (h _).1 (hI.clear w p f hf hb ((h _).2 hj))
 
 theorem HistInv.preserved : Preserved HistInv := by
   refine Preserved.of_iff ?_
